@@ -16,6 +16,7 @@ EXTENDS Engine
 CONSTANTS MaxRank,     \* streams are ranks 0..MaxRank in short-lex order
           Checks,      \* -rapid.checks
           Files,       \* fail files that may be present
+          NoDeadline,  \* TRUE: minimization has no time limit (it must still terminate: liveness configuration)
           BehSel       \* which behaviours the property may show: set of <<sig, ended, nfw, site>>
 
 VARIABLES beh,         \* rank -> behaviour of the property on that stream (chosen on first use)
@@ -47,9 +48,9 @@ Init ==
   /\ beh = [r \in Ranks |-> Unset]
   /\ finfo \in [Files -> [usable : BOOLEAN, rank : Ranks]]
   /\ genRank = 0
-  /\ \E nff \in BOOLEAN :
+  /\ \E nff \in BOOLEAN, xf \in {""} \cup Files :     \* -rapid.nofailfile; -rapid.failfile naming one of the files
        /\ pc = "list"
-       /\ cfg = [checks |-> Checks, base |-> <<0, 0, 0, 1>>, nofailfile |-> nff, failfile |-> "", expectFF |-> Files, deadline |-> FALSE]
+       /\ cfg = [checks |-> Checks, base |-> <<0, 0, 0, 1>>, nofailfile |-> nff, failfile |-> xf, expectFF |-> Files, deadline |-> FALSE]
   /\ ffq = <<>> /\ ff = "" /\ pend = "" /\ valid = 0 /\ invalid = 0 /\ seed = <<0, 0, 0, 1>> /\ cur = NoCur /\ flag = FALSE
   /\ e1 = NoErr /\ e2 = NoErr /\ buf = NoStream /\ best = NoStream /\ orig = NoStream /\ sErr = NoErr /\ cache = {}
   /\ shrinks = 0 /\ rep = NoRep /\ tbFailed = FALSE /\ tbFailNow = FALSE /\ viol = {}
@@ -63,10 +64,11 @@ SeqsOf(S) == { s \in [1..Cardinality(S) -> S] : \A i, j \in 1..Cardinality(S) : 
 
 \* a recording of a run on rank r prunes to some rank <= r; in the repaired design
 \* the pruned recording replays to the same behaviour (C04), in the pinned one it may not
-PrunesTo(r, q) == q <= r /\ (Design = "repaired" => (beh[q].sig = "unset" \/ beh[q] = beh[r]))
+PrunesTo(r, q) == q <= r /\ (Design # "pinned" => (beh[q].sig = "unset" \/ beh[q] = beh[r]))
 
+\* the explicit file first, then the discovered ones in any order (pinned: no different)
 List == /\ pc = "list"
-        /\ \E s \in SeqsOf(Files) : Do(V_FFList(s), E_FFList(s, seed))
+        /\ \E s \in SeqsOf(Files) : ((IF cfg.failfile = "" \/ Design = "explicit_last" THEN TRUE ELSE s[1] = cfg.failfile) /\ Do(V_FFList(s), E_FFList(s, seed)))
         /\ UNCHANGED mvars
 
 \* pinned: a fail file whose test case now passes is dropped without a log line
@@ -113,7 +115,7 @@ Return == /\ cur.kind \in {"ff1", "ff2", "gen", "repro", "shrink1", "shrink2", "
 LastErr == Outcome(cur.obs, FALSE, FALSE)[1]
 
 \* the pruned recording is a stream of its own; in the repaired design it replays like its source
-PruneBeh(r, q) == IF Design = "repaired" /\ beh[q].sig = "unset" THEN [beh EXCEPT ![q] = beh[r]] ELSE beh
+PruneBeh(r, q) == IF Design # "pinned" /\ beh[q].sig = "unset" THEN [beh EXCEPT ![q] = beh[r]] ELSE beh
 
 SBegin == /\ pc = "shrinkbegin"
           /\ \E q \in Ranks : /\ PrunesTo(genRank, q)
@@ -138,8 +140,12 @@ Acc == /\ pc = "accepting"
                Do(V_Accept(cur.stream, Stream(q), err, err, TRUE), E_Accept(cur.stream, Stream(q), err, err, TRUE))
        /\ UNCHANGED <<finfo, genRank>>
 
-\* deadline reached or nothing left to try: enabled in every shrinker state
+\* deadline reached or nothing left to try: enabled in every shrinker state -- unless the configuration has no time limit (NoDeadline),
+\* in which case the shrinker only ends when no untried smaller candidate is left
+NothingLeft == \A c \in Ranks : c < best.rank => ToString(c) \in cache
 SEnd == /\ pc = "shrink"
+        /\ Design # "neverends"          \* (wrong variant for the liveness configuration's non-vacuity test: the shrinker has no way out)
+        /\ NoDeadline => NothingLeft
         /\ Do(V_ShrinkEnd(best, sErr), E_ShrinkEnd(best, sErr))
         /\ UNCHANGED mvars
 
